@@ -118,7 +118,7 @@ func genBatch(r *rand.Rand, mode string) (BatchCfg, *BatchScript) {
 		c.N, c.Fb, c.StopMode, c.Sched, c.Via, c.Shape = 1, false, true, "bigstop", "builder", "results"
 		pFail = 0
 	case "storm": // many always-failing items on many workers: per-item state must not be shared
-		c.Items, c.C, c.N, c.Sched, c.Via = 48, 8, 2, "free", "builder"
+		c.Items, c.C, c.N, c.Sched, c.Via = 64, 8, 2, "tight", "builder"
 		c.Fb = r.Intn(2) == 0
 		c.StopMode = false
 		pFail = 1
@@ -258,10 +258,16 @@ func init() {
 			}
 			r := rand.New(rand.NewSource(seed*7919 + int64(mi)))
 			n := count
-			if mode == "bigstop" || mode == "storm" { // large scenarios: a handful is enough
+			if mode == "bigstop" { // large scenarios: a handful is enough
 				n = 6
 				if bc := opts["bigcount"]; bc != "" {
 					fmt.Sscanf(bc, "%d", &n)
+				}
+			}
+			if mode == "storm" { // cheap, and the race windows it aims at are nanoseconds wide: many rounds
+				n = 150
+				if count > 500 {
+					n = 2000
 				}
 			}
 			for i := 0; i < n; i++ {
